@@ -423,6 +423,19 @@ func tamperRandom(r *rand.Rand, ver string, evJSON []byte) []byte {
 				con[k] = raw(randValue(r, 0))
 			}
 		case 2:
+			if r.Intn(3) == 0 {
+				// a name that differs from a name the event format knows only in letter case (or by a non-ASCII letter
+				// that folds to the ASCII one): another, unknown top-level key - with a value of the member's type
+				names := []string{"event_id", "type", "room_id", "sender", "state_key", "content", "hashes", "signatures", "depth",
+					"prev_events", "prev_state", "auth_events", "origin", "origin_server_ts", "membership", "redacts"}
+				v := rec{Ver: ver, VK: names[r.Intn(len(names))], VS: "case"}
+				v.Proto.Type = typ
+				if strings.ContainsAny(v.VK, "sk") && r.Intn(3) == 0 {
+					v.VS = "fold"
+				}
+				ev[variantName(&v, r.Intn(6))] = variantValue(&v)
+				break
+			}
 			ev[randKey(r)] = raw(randValue(r, 0))
 		case 3:
 			ev[name("unsigned")] = raw(map[string]interface{}{"age": r.Intn(1000)})
